@@ -5,13 +5,13 @@ import GqlProofs.Schema.Basic
 namespace Gql.Load
 open Gql
 
-/-- what `load sd = ok s` means, stage by stage -/
-theorem load_ok_inv {sd : SchemaDoc} {s : Schema} (h : load sd = .ok s) :
+/-- what `load sd = ok s` means, stage by stage (with the last check, the kinds of the root types) -/
+theorem load_ok_inv' {sd : SchemaDoc} {s : Schema} (h : load sd = .ok s) :
     ∃ st r0 d0 r1 d1, buildState sd = .ok st ∧ sd.schema.length ≤ 1 ∧
       applySchemaDefs st sd.schema noRoots [] = .ok r0 d0 ∧
       applySchemaDefs st sd.schemaExt r0 d0 = .ok r1 d1 ∧
       validateTypeDefinitions st = .pass ∧ validateDirectiveDefinitions st = .pass ∧
-      s = mkSchema sd st r1 d1 := by
+      s = mkSchema sd st r1 d1 ∧ checkRootKinds st (finalRoots sd st r1) = .pass := by
   unfold load at h
   split at h
   · simp at h
@@ -34,7 +34,19 @@ theorem load_ok_inv {sd : SchemaDoc} {s : Schema} (h : load sd = .ok s) :
       rename_i ht
       split at h <;> try (simp at h)
       rename_i hd
-      exact ⟨r0, d0, r1, d1, hst, hlen', h0, h1, ht, hd, h.symm⟩
+      split at h <;> try (simp at h)
+      rename_i hk
+      exact ⟨r0, d0, r1, d1, hst, hlen', h0, h1, ht, hd, h.symm, hk⟩
+
+/-- what `load sd = ok s` means, stage by stage -/
+theorem load_ok_inv {sd : SchemaDoc} {s : Schema} (h : load sd = .ok s) :
+    ∃ st r0 d0 r1 d1, buildState sd = .ok st ∧ sd.schema.length ≤ 1 ∧
+      applySchemaDefs st sd.schema noRoots [] = .ok r0 d0 ∧
+      applySchemaDefs st sd.schemaExt r0 d0 = .ok r1 d1 ∧
+      validateTypeDefinitions st = .pass ∧ validateDirectiveDefinitions st = .pass ∧
+      s = mkSchema sd st r1 d1 := by
+  obtain ⟨st, r0, d0, r1, d1, a, b, c, d, e, f, g, _⟩ := load_ok_inv' h
+  exact ⟨st, r0, d0, r1, d1, a, b, c, d, e, f, g⟩
 
 /- ---------------- validators ---------------- -/
 
